@@ -511,6 +511,17 @@ func (n *node) check() error {
 	if e != nil {
 		return e
 	}
+	// An augment inside a uses names a descendant of the grouping (that a
+	// module-level one is absolute is checked when augments are applied).
+	if n.Type() == NodeUses {
+		for _, c := range n.children {
+			if _, abs := c.Argument().(*AbsoluteSchemaArg); abs && c.Type() == NodeAugment {
+				ctx, _ := c.ErrorContext()
+				return fmt.Errorf("%s: invalid argument %s expected descendant schema id",
+					ctx, c.Argument().String())
+			}
+		}
+	}
 	e = n.checkCardinality()
 	if e != nil {
 		return e
